@@ -446,20 +446,45 @@ def cost_rules(run, db):
             return Arr(args[0].shape, [Const(0)] * len(args[0].data))
         return orig_ext(dotted, args, kwargs, node)
     dom.call_ext = call_ext
-    for name, kw, wrt in (('mean_square_error', lambda: {'M': vec('M'), 'D': vec('D'), 'mask': Const(None)}, 'M'),
-                          ('negative_loglikelihood', lambda: {'y': vec('y'), 'yhat': vec('t'), 'mask': Const(None)}, 'y'),
-                          ('bias_and_gain_invariant_error', lambda: {'I': vec('I'), 'D': vec('D'), 'mask': Const(None)}, 'I')):
+    # boolean masks: a concrete keep / drop pattern selects entries of the generic array and scatters the gradient back
+    is_mask = lambda v: isinstance(v, Arr) and v.data and all(isinstance(z, Const) and isinstance(z.v, bool) for z in v.data)
+    orig_sub, orig_store = dom.subscript, dom.store_subscript
+
+    def subscript(v, idx, node):
+        if isinstance(v, Arr) and is_mask(idx) and idx.shape == v.shape:
+            sel = [x for x, m_ in zip(v.data, idx.data) if m_.v]
+            return Arr((len(sel),), sel)
+        return orig_sub(v, idx, node)
+
+    def store_subscript(target, idx, val, node):
+        if isinstance(target, Arr) and is_mask(idx) and idx.shape == target.shape:
+            pos = [k for k, m_ in enumerate(idx.data) if m_.v]
+            vals = val.data if isinstance(val, Arr) else [val] * len(pos)
+            if len(vals) != len(pos):
+                raise AnalysisError('cost gradient: masked store of %d values into %d kept entries' % (len(vals), len(pos)))
+            for k, x in zip(pos, vals):
+                target.data[k] = x
+            return True
+        return orig_store(target, idx, val, node)
+    dom.subscript, dom.store_subscript = subscript, store_subscript
+    keep = [True, False, True]
+    for name, kwf, wrt in (('mean_square_error', lambda m: {'M': vec('M'), 'D': vec('D'), 'mask': m}, 'M'),
+                           ('negative_loglikelihood', lambda m: {'y': vec('y'), 'yhat': vec('t'), 'mask': m}, 'y'),
+                           ('bias_and_gain_invariant_error', lambda m: {'I': vec('I'), 'D': vec('D'), 'mask': m}, 'I')):
         f = db.func(C + name)
-        res = returns(it.run(f, kwargs=kw), f)
-        v = res[0].value
-        if not (isinstance(v, Tup) and len(v.items) == 2 and isinstance(v.items[1], Arr)):
-            raise AnalysisError('%s: expected (cost, grad) with an array gradient, got %r' % (f.qual, v))
-        cost = as_rat(dom, v.items[0], 'cost')
-        for i in range(n):
-            g = as_rat(dom, v.items[1].data[i], 'grad[%d]' % i)
-            d = diff(cost, '%s%d' % (wrt, i), R)
-            run.check(d == g, 'C06.cost', f.qual, 'gradient', 'grad[%d] == d cost / d %s[%d] (generic %d-sample array)' % (i, wrt, i, n),
-                      '%s: grad[%d] = %s but d cost/d %s[%d] = %s' % (name, i, g.key(), wrt, i, d.key()), f.loc())
+        for masked in (False, True):
+            mk_mask = (lambda: Arr((n,), [Const(b) for b in keep])) if masked else (lambda: Const(None))
+            res = returns(it.run(f, kwargs=lambda: kwf(mk_mask())), f)
+            v = res[0].value
+            if not (isinstance(v, Tup) and len(v.items) == 2 and isinstance(v.items[1], Arr) and len(v.items[1].data) == n):
+                raise AnalysisError('%s: expected (cost, grad) with an array gradient of the input size, got %r' % (f.qual, v))
+            cost = as_rat(dom, v.items[0], 'cost')
+            for i in range(n):
+                g = as_rat(dom, v.items[1].data[i], 'grad[%d]' % i)
+                d = diff(cost, '%s%d' % (wrt, i), R)
+                tag = ' with the mask [keep, drop, keep]' if masked else ''
+                run.check(d == g, 'C06.cost', f.qual, 'gradient' + (' (masked)' if masked else ''), 'grad[%d] == d cost / d %s[%d] (generic %d-sample array%s)' % (i, wrt, i, n, tag),
+                          '%s%s: grad[%d] = %s but d cost/d %s[%d] = %s' % (name, tag, i, g.key(), wrt, i, d.key()), f.loc())
 
 
 def sum_rules(run, db, rule='C06.sum'):
